@@ -17,6 +17,3 @@ func (p *Core) tokApplyForwardRecv(ci int, r *sim.TxResult, ps *PktState, ok boo
 
 func (p *Core) tokRefundForwarded(ci int, ps *PktState, why string) {}
 
-func (p *Core) genAttack() []sim.Op { return nil }
-
-func (p *Core) genGrant() []sim.Op { return nil }
